@@ -27,7 +27,7 @@ SPEC = dict(
           "(90%), 0 (5%) or inconsistent (5%); LeavePartialOnError on/off; 9 fixed corner cases first (ids 7 and 8: the former stale-tail inputs, regression); "
           "download cache scenario (1/7 of the random cases + 2 fixed): Config.CacheDownloads=3 under dirs.SetRootDir(temp), the "
           "same Store downloads the same DownloadInfo twice to two target paths, each call with its own script and partial file; "
-          "after a successful first call the second is a cache hit (no request). Compared: error class "
+          "after a successful first call the second is a cache hit (no request); family `bytes on disk, then error replies, then the good body` (1/5 of the random cases + 5 fixed): an over-long or wrong body cut by a lost connection / an over-long or short partial file / a lying 206, then 1..3 of {5xx with or without body, 4xx with body, redirect, dropped connection} answering the Range retry, then the good body. Compared: error class "
           "(nil / HashError / other), presence and full content of the target, presence of .partial. Non-trivial = at "
           "least two requests served, or a non-empty partial file and one request."),
     exhaustive=dict(quick=False, thorough=False),
